@@ -127,8 +127,15 @@ def concrete_values(scratch, harness, idx=0):
     env = dict(B.ENV, CARGO_TARGET_DIR=os.path.join(CACHE, f"kani-target-{idx}"))
     cmd = ["cargo", "kani", "--no-default-features", "--lib", "-Z", "stubbing", "-Z", "concrete-playback", "--concrete-playback=print", "--harness", harness, "--output-format", "terse"]
     p = subprocess.run(cmd, cwd=scratch, env=env, stdout=subprocess.PIPE, stderr=subprocess.STDOUT, text=True, timeout=1800)
-    vecs = [[int(x) for x in m.split(",") if x.strip()] for m in re.findall(r"vec!\[([\d,\s]*)\],", p.stdout)]
-    return vecs, p.stdout
+    # one playback test per cover property and per failed check: keep the ones generated for failed checks
+    tests = []
+    for blk in re.split(r"Concrete playback unit test for", p.stdout)[1:]:
+        m = re.search(r"Check for `(\w+)`", blk)
+        kind = m.group(1) if m else "?"
+        vecs = [[int(x) for x in v.split(",") if x.strip()] for v in re.findall(r"vec!\[([\d,\s]*)\],", blk)]
+        if kind != "cover" and vecs:
+            tests.append(vecs)
+    return tests, p.stdout
 
 
 def f32_expr(bits):
@@ -149,36 +156,37 @@ def f32_expr(bits):
 def run_c01(tier, seed):
     t0 = time.time()
     names = list(FN_TOTAL)
-    if tier == "quick":
-        rnd = random.Random(seed)
-        pick = set(ALWAYS) | set(rnd.sample([n for n in names if n not in ALWAYS], 8))
-        names = [n for n in names if n in pick]
+    # both tiers run every claimed harness (a defect in an unsampled built-in would otherwise be missed);
+    # the thorough tier only allows more time per harness
     harnesses = ["k_fn_total_" + n for n in names]
     scratch = prepare_scratch()
     violations, known_hits, replays = [], [], 0
     try:
-        results, _, logs = run_harnesses(harnesses, groups=7 if tier == "thorough" else 5, scratch=scratch)
+        results, _, logs = run_harnesses(harnesses, groups=8, timeout_s=900 if tier == "thorough" else 300, scratch=scratch)
         meta = B.ensure_built(None)
         nat = E.Runner(meta["native"], native=True)
         natrel = None
         failed = [h for h, r in results.items() if r["status"] == "failed"]
         for h in failed:
-            vecs, raw = concrete_values(scratch, h)
+            tests, raw = concrete_values(scratch, h)
             fn = h[len("k_fn_total_"):]
-            # harness draws: n (usize), then n f32 values
-            vals = []
-            if vecs:
+            confirmed = False
+            doc, status, vals = "", "no concrete test produced", []
+            for vecs in tests:
+                # harness draws: n (usize), then n f32 values
+                vals = []
                 n = int.from_bytes(bytes(vecs[0]), "little") if len(vecs[0]) == 8 else 0
                 for v in vecs[1:1 + n]:
                     if len(v) == 4:
                         vals.append(int.from_bytes(bytes(v), "little"))
-            args = ", ".join(f32_expr(b) for b in vals)
-            fname = {"min": "min", "max": "max"}.get(fn, fn)
-            doc = f'<svg><text xy="0" text="{{{{{fname}({args})}}}}"/></svg>'
-            r = nat.run([doc], ())
-            replays += 1
-            status = r.docs[0]["status"]
-            confirmed = status in ("panic", "abort")
+                args = ", ".join(f32_expr(b) for b in vals)
+                doc = f'<svg><text xy="0" text="{{{{{fn}({args})}}}}"/></svg>'
+                r = nat.run([doc], ())
+                replays += 1
+                status = r.docs[0]["status"]
+                if status in ("panic", "abort"):
+                    confirmed = True
+                    break
             if confirmed:
                 from . import build as B2
                 m2 = B2.ensure_built(None, want_release=True, verbose=False)
